@@ -10,8 +10,8 @@
    a binary operator token is glued to it (x = 1; -a;).
    PARTIAL: sequences longer than two and statements beyond the templates are checked on the
    implementation by the `accept` family (random sequences of generated statements). *)
-From Coq Require Import NArith List Bool.
-From OQ3 Require Import gen.Templates Model.Accept Proofs.AcceptP.
+From Coq Require Import NArith Arith List Bool.
+From OQ3 Require Import gen.Templates Model.Accept Proofs.ComposeTopP Proofs.ComposeBlockP.
 Import ListNotations.
 
 Theorem C16_pairs_compose_at_top_level : forall i j,
@@ -34,8 +34,8 @@ Proof. exact let_context_refuted. Qed.
 Theorem C16_assignment_glues_operator_refuted : composes_top T_assign_lit T_expr_neg = false.
 Proof. exact assignment_glues_operator_refuted. Qed.
 
-Example C16_nonvacuous : List.length id_pairs = 6889%nat /\
-  List.length (filter (fun '(i, j) => negb (k_c16 i j)) id_pairs) = 6551%nat.
+Example C16_nonvacuous : (6889 <=? List.length id_pairs)%nat = true /\
+  (6551 <=? List.length (filter (fun '(i, j) => negb (k_c16 i j)) id_pairs))%nat = true.
 Proof. vm_compute. auto. Qed.
 
 Print Assumptions C16_pairs_compose_at_top_level.
